@@ -71,6 +71,8 @@ fn subsets() -> Vec<FamParams> {
             rows: 1 + (m % 3) as u8,
             fx_tweak: 0,
             rot_first: m % 5 == 2,
+            lookup_nz: m % 4 == 1,
+            copy_dup: m % 3 == 1,
         });
     }
     v
@@ -178,7 +180,7 @@ fn main() {
     cx.run_cases("faults", &cases, |case| {
         let cfg = &case.cfg;
         let mut out = CaseOut::batch();
-        let r = vcore::catch(|| -> Result<(bool, bool, Vec<Class>, bool, Option<Vec<String>>), String> {
+        let r = vcore::catch(|| -> Result<(bool, bool, Vec<Class>, bool, Option<Vec<String>>, bool), String> {
             // build the circuits and instances of all proofs
             let mut circuits = vec![];
             let mut instances = vec![];
@@ -244,9 +246,31 @@ fn main() {
                 roweval::violated_classes(&mock)
             };
             let v = verdict_real(cfg, &circuits, &instances, seed, blind)?;
-            Ok((v, m, classes, changed, m_reasons))
+            // independent evaluation of the copy constraints the family declares by construction:
+            // honest values from the cell log (first-phase cells only), overrides applied on top
+            let logged: BTreeMap<CellId, Option<F>> = circuits[attacked].logged_cells().into_iter().collect();
+            let value_of = |c: &CellId| -> Option<F> {
+                let honest = (*logged.get(c)?)?;
+                Some(match circuits[attacked].overrides.iter().find(|(id, _)| id == c) {
+                    Some((_, f)) => midnight_proofs::verif::apply_fault(f, honest),
+                    None => honest,
+                })
+            };
+            let mut tie_broken = false;
+            for (cell, tie) in vfam::fam::ties(&cfg.p) {
+                let Some(a) = value_of(&cell) else { continue };
+                let b = match tie {
+                    vfam::fam::Tie::Cell(o) => value_of(&o),
+                    vfam::fam::Tie::Inst(col, row) => Some(instances[attacked][col][row]),
+                    vfam::fam::Tie::Const(c) => Some(c),
+                };
+                if let Some(b) = b {
+                    tie_broken |= a != b;
+                }
+            }
+            Ok((v, m, classes, changed, m_reasons, tie_broken))
         });
-        let (v, m, classes, changed, m_reasons) = match r {
+        let (v, m, classes, changed, m_reasons, tie_broken) = match r {
             Err(p) => {
                 out.eval("panic", true);
                 out.viol(Viol::new(format!("panic:{}", vcore::panic_site(&p)), format!("panicked: {p}"), json!({})));
@@ -277,6 +301,12 @@ fn main() {
             }
             k.into_iter().collect::<Vec<_>>().join("+")
         };
+        if tie_broken && v {
+            out.viol(Viol::new("verifier-accepts-broken-copy-tie", "two cells the circuit ties with a copy constraint hold different values, yet the real verifier accepts (declared ties are evaluated independently of the permutation assembly)".to_string(), json!({"reference_classes": cls, "mock_ok": m})));
+        }
+        if tie_broken {
+            out.counter("cases_with_broken_declared_tie", 1);
+        }
         if v != r_ok {
             let key = if v { format!("verifier-accepts-violated:{}", kind(&cls)) } else { "verifier-rejects-satisfied".to_string() };
             out.viol(Viol::new(key, format!("real verifier verdict {} but the reference evaluator says violated classes = {:?}", if v { "ACCEPT" } else { "REJECT" }, cls), json!({"classes": cls, "mock_ok": m})));
